@@ -3,6 +3,7 @@ import Pog.Drv.Names
 import Pog.Drv.Http
 import Pog.Drv.Stream
 import Pog.Drv.Registry
+import Pog.Drv.Ops
 /-
   Line protocol: one JSON request per line on stdin, one JSON reply per line on stdout.
     request  {"f": <function>, "a": [<args>], "u": {<codepoint>: {"w":bool,"d":bool,"l":str,"U":str,"iu":bool}}}
@@ -16,7 +17,8 @@ def dispatchers : List Dispatch := [
   dispatchNames,
   dispatchHttp,
   dispatchStream,
-  dispatchRegistry
+  dispatchRegistry,
+  dispatchOps
 ]
 
 def dispatch (f : String) (a : Array Json) (u : UInfo) : Except String Json :=
